@@ -50,6 +50,9 @@ func encodable(cs string, enc xenc.Encoding, stride int) []rune {
 	}
 	if cs == "UTF-8" {
 		out = append(out, 0x10000, 0x1f600, 0x10ffff-2, 0x2f800)
+		if stride > 1 {
+			out = append(out, 0xfffd) // whatever the stride: the character the decoders use as their error marker
+		}
 	}
 	return out
 }
